@@ -365,11 +365,14 @@ func (p proxyHandler) writeResponse(rw http.ResponseWriter, res *http.Response) 
 
 	var err error
 	switch {
+	case shouldChunk(res):
+		// The body is copied decoded, the chunk boundaries of the origin are not visible here.
+		// Every write carries what one read from the upstream body returned, that is data the
+		// origin has already sent: flush it.
+		w := flushAfterWriteWriter{rw, http.NewResponseController(rw)}
+		err = copyBody(w, res.Body)
 	case isTextEventStream(res):
 		w := newPatternFlushWriter(rw, http.NewResponseController(rw), sseFlushPatterns...)
-		err = copyBody(w, res.Body)
-	case shouldChunk(res):
-		w := newPatternFlushWriter(rw, http.NewResponseController(rw), chunkFlushPatterns...)
 		err = copyBody(w, res.Body)
 	default:
 		err = copyBody(rw, res.Body)
